@@ -811,3 +811,57 @@ def run_element_comments(prog, tier, repo):
                               f'formatted output')
     res.floor('iterations over comment-carrying nodes', n, 5)
     return [res]
+
+
+# ---------------------------------------------------------------------------------------------------------------------
+# PATTERN-PARENS (C08, C15): in the pattern grammar `( p )` is a one-element tuple pattern, not grouping. A pattern printer
+# may therefore put parentheses only around the element list of a tuple / variant payload (the result of the comma-separated
+# list builder), never around the document of a whole sub-pattern: that changes the tree (and what the pattern matches).
+
+def run_pattern_parens(prog, tier, repo):
+    from ..cfg import single_def
+    res = RuleResult('PATTERN-PARENS', 'C08: the pattern printer parenthesises only comma-separated element lists (tuple and variant '
+                     'payloads), never a whole sub-pattern - `(p)` is a one-element tuple pattern, not grouping')
+    n = 0
+
+    def pattern_fn(b):
+        from ..facts import strip_refs
+        for i in range(1, b.nargs + 1):
+            t = strip_refs(b.locals[i])
+            if t.k == 'adt' and ('::pattern::MatchingPattern' in t.name or '::pattern::TuplePattern' in t.name):
+                return True
+        return False
+    for b in prog.bodies.values():
+        if b.crate != 'samlang_printer' or '::tests' in b.name:
+            continue
+        owner = b
+        if b.kind == 'closure':
+            parents = [pb for pb in prog.bodies.values() if pb.crate == b.crate and pb.kind != 'closure' and b.name.startswith(pb.name + '::')]
+            owner = parents[0] if parents else b
+        if not pattern_fn(owner):
+            continue
+        for bi, bl in enumerate(b.blocks):
+            t = bl.term
+            if bl.cleanup or t[0] != 'call' or not (callee(t)[1] or '').endswith('parenthesis_surrounded_doc') or not t[3]:
+                continue
+            n += 1
+            nb = sum(1 for i in res.instances if i.key.startswith(f'parens:{b.name}#')) + 1
+            key = f'parens:{b.name}#{nb}'
+            o = t[3][0]
+            src = None
+            if o[0] in ('c', 'm') and not o[1].proj:
+                sd = single_def(b, o[1].local)
+                hops = 0
+                while sd and sd[1] != 'term' and sd[2][0] == 'use' and sd[2][1][0] in ('c', 'm') and not sd[2][1][1].proj and hops < 6:
+                    hops += 1
+                    sd = single_def(b, sd[2][1][1].local)
+                if sd and sd[1] == 'term':
+                    src = callee(sd[2])[1] or ''
+            if src and src.split('::')[-1] in ('comma_sep_list',):
+                res.ok(key, b.loc(t[7]), 'parentheses around a comma-separated element list')
+            else:
+                res.violation(key, b.loc(t[7]), f'{b.name} puts parentheses around `{(src or "a computed document").split("::")[-1]}` inside '
+                              f'the pattern printer: a parenthesised sub-pattern re-parses as a one-element tuple pattern, so the '
+                              f'formatted (or renamed) document no longer denotes the same program')
+    res.floor('parenthesised documents in pattern printers', n, 1)
+    return [res]
